@@ -91,6 +91,20 @@ def vol_check(kind, case, rec):
         rec.require("uniform-shapes", ru.dV.shape[-1] == 1 and ru.dhdX.shape[-1] == 1, str(ru.dV.shape))
         rec.close("uniform-dV", float(np.abs(np.broadcast_to(ru.dV, dV.shape) - dV).max()) / scale, 1e-13)
         rec.close("uniform-dhdX", float(np.abs(np.broadcast_to(ru.dhdX, region.dhdX.shape) - region.dhdX).max() / np.abs(region.dhdX).max()), 1e-12)
+        # the grid is distorted afterwards and the uniform region re-evaluated the documented way (no uniform argument): it is an
+        # ordinary region of the distorted mesh then
+        md = mesh.copy()
+        ru2 = gm.region(md, info, uniform=True)
+        Pd = np.array(mesh.points)
+        Pd = Pd + 0.08 * info["h"] * np.sin(2.0 + 3.0 * Pd[:, ::-1] / max(float(np.abs(Pd).max()), 1e-12))
+        with warnings.catch_warnings():
+            warnings.simplefilter("ignore")
+            md.update(points=Pd, callback=ru2.reload)
+            fresh_d = gm.region(md, info)
+        ok_shape = np.asarray(ru2.dV).shape == np.asarray(fresh_d.dV).shape
+        rec.require("reloaded-uniform-region-stores-all-cells", ok_shape, [np.asarray(ru2.dV).shape, np.asarray(fresh_d.dV).shape])
+        if ok_shape:
+            rec.close("reloaded-uniform-region=fresh-region-of-the-distorted-mesh", float(np.abs(np.asarray(ru2.dhdX) - np.asarray(fresh_d.dhdX)).max() / np.abs(fresh_d.dhdX).max()), 1e-13)
     # a region built on other points and reloaded on this mesh (the documented mesh.update(points, callback=region.reload))
     # and copies with another flag / scheme equal the freshly built region
     def same_arrays(a, b, names):
